@@ -194,6 +194,43 @@ def rule_e(F):
     return res
 
 
+def rule_c(F):
+    """same-kind arms of `PartialOrd for Value` compare with the payload's own PartialOrd (the relation `==` of the same
+    payload type is consistent with): Integer with i64::partial_cmp, Real with f64::partial_cmp. `total_cmp` orders -0.0
+    before +0.0 and NaN after everything, while PartialEq says -0.0 == +0.0: equal values would be less/greater."""
+    res = []
+    f = impl_fn(F, "cmp::PartialOrd", "value::Value", "partial_cmp")
+    m = match_arms(f)
+    if m is None:
+        raise AnchorMissing("match in PartialOrd for Value")
+    n = 0
+    for a in m["arms"]:
+        alts = a["pat"]["pats"] if a["pat"].get("k") == "or" else [a["pat"]]
+        for p in alts:
+            if not (p.get("k") == "tuple" and len(p["pats"]) == 2):
+                continue
+            l = [x[0].rsplit("::", 1)[-1] for x in pat_variants(p["pats"][0])]
+            r = [x[0].rsplit("::", 1)[-1] for x in pat_variants(p["pats"][1])]
+            if l != r or l not in (["Integer"], ["Real"]):
+                continue
+            n += 1
+            key = "C19/C/Value/(%s,%s)/ordered-by-the-payload-PartialOrd" % (l[0], r[0])
+            calls = [y for y in hir_walk(a["body"]) if y.get("k") in ("mcall", "call", "bin") and hir_callee(y)]
+            names = [c for y in calls for c in hir_callee(y)]
+            good = any(c.endswith("PartialOrd::partial_cmp") for c in names)
+            other = [c for c in names if c.rsplit("::", 1)[-1] in ("total_cmp", "cmp", "to_bits", "max", "min", "clamp")]
+            if good and not other:
+                res.append(ok("C19.C", key, f.loc(a.get("ln")), "compared with %s" % [c for c in names if c.endswith("partial_cmp")][-1]))
+            else:
+                res.append(bad("C19.C", key, f.loc(a.get("ln")),
+                               "the (%s, %s) arm of PartialOrd for Value orders the payloads with %s instead of their own partial_cmp: the "
+                               "ordering disagrees with `==` (f64::total_cmp puts -0.0 strictly before +0.0, which compare equal), so two equal "
+                               "values are less/greater" % (l[0], r[0], [c.rsplit("::", 2)[-2] + "::" + c.rsplit("::", 1)[-1] for c in (other or names)][:2])))
+    if n < 2:
+        raise AnchorMissing("same-kind numeric arms in PartialOrd for Value (found %d)" % n)
+    return res
+
+
 def rule_o(F):
     res = []
     f = impl_fn(F, "cmp::PartialOrd", "vm::runtime::cao_lang_object::CaoLangObject", "partial_cmp")
@@ -253,6 +290,7 @@ def rule_z(F):
 RULES = [
     Rule("C19.H", rule_h, 6, "hash never finer than eq (no pointer identity in the hasher)"),
     Rule("C19.T", rule_t, 1, "table equality and hash agree on row order"),
+    Rule("C19.C", rule_c, 2, "numbers are ordered by their payload's own PartialOrd (consistent with ==)"),
     Rule("C19.E", rule_e, 6, "eq answers true only for same-kind pairs"),
     Rule("C19.O", rule_o, 2, "ordering of objects never contradicts equality"),
     Rule("C19.Z", rule_z, 1, "hash 0 mapped away (shared with C12.Z)"),
